@@ -113,6 +113,7 @@ func runC14(e *Env) {
 		}
 	}
 	x.st.mu.Lock()
+	e.R.SetExtra("observed_cases", x.st.samples)
 	e.R.SetExtra("limits_observed_vs_limit", x.st.limits)
 	e.R.SetExtra("c14_counts", x.st.counts)
 	x.st.mu.Unlock()
@@ -476,7 +477,7 @@ func c14OpsStrings(ops []porcupine.Operation) []string {
 
 func (x *c14Run) partStore() {
 	e := x.e
-	n := e.Pick(1000, 6000)
+	n := e.Pick(1000, 20000)
 	rng := vk.NewRng(e.Seed ^ vk.HashStr("c14"+e.Tier))
 	scripts := make([][][]c14ScriptOp, n)
 	for i := range scripts {
@@ -560,7 +561,7 @@ func (x *c14Run) partStore() {
 // partStoreExpiry: TTL 50 ms, brackets only.
 func (x *c14Run) partStoreExpiry() {
 	e := x.e
-	rounds := e.Pick(60, 400)
+	rounds := e.Pick(60, 1000)
 	const ttl = 50 * time.Millisecond
 	rng := vk.NewRng(e.Seed ^ vk.HashStr("c14exp"+e.Tier))
 	seeds := make([]uint64, rounds)
@@ -635,6 +636,7 @@ func (x *c14Run) partStoreExpiry() {
 		}
 		wg.Wait()
 		var samp []look
+		perVerdict := map[string]int{}
 		for i := range looks {
 			l := &looks[i]
 			s := ss[l.Sess]
@@ -658,7 +660,8 @@ func (x *c14Run) partStoreExpiry() {
 				atomic.AddInt64(&noVerdict, 1)
 				e.R.NoVerd()
 			}
-			if len(samp) < 6 {
+			perVerdict[l.Verdict]++
+			if perVerdict[l.Verdict] <= 3 {
 				samp = append(samp, *l)
 			}
 		}
@@ -746,7 +749,7 @@ func c14GenRounds(e *Env) []c14Round {
 	recvOnly := small
 	recvOnly.Name, recvOnly.MaxWS = "receivers-only", 80
 
-	mult := e.Pick(2, 10)
+	mult := e.Pick(2, 30)
 	for m := 0; m < mult; m++ {
 		// clean classes first: sequential fills, connection limiter, size / rate probes, lifetime brackets
 		for k := 0; k < 2; k++ {
@@ -801,7 +804,7 @@ func c14GenRounds(e *Env) []c14Round {
 	}
 	if e.Thorough() {
 		// further configurations drawn from the seed
-		for c := 0; c < 4; c++ {
+		for c := 0; c < 8; c++ {
 			v := small
 			v.Name = fmt.Sprintf("var%d", c)
 			v.MaxSessions = 1 + rng.Intn(6)
